@@ -59,6 +59,8 @@ def rand_script(rng):
             s.append(dict(a="Progress", p=p))
             if p == 100 and tmo != "fired":
                 tmo = "cancelled"
+        elif not exited and rng.random() < 0.15:
+            s.append(dict(a="Stderr"))
         elif not exited:
             m = rng.random() < 0.7
             s.append(dict(a="Stdout", marker=m))
